@@ -55,7 +55,9 @@ func IndexFromFile(ctx context.Context,
 	if err == nil {
 		switch t := piece.(type) {
 		case FormatEntry:
-			index.Index.FeatureFlags |= t.FeatureFlags
+			// The digest flag says how the chunks of this index were hashed, not how
+			// the archive was made
+			index.Index.FeatureFlags |= t.FeatureFlags &^ CaFormatSHA512256
 		}
 	}
 	f.Close()
